@@ -26,7 +26,10 @@ func ifaceMethods(t types.Type) map[string]*types.Func {
 	return out
 }
 
-func c37(c *an.Check) { equivCheck(c, nil) }
+func c37(c *an.Check) {
+	equivCheck(c, nil)
+	dialDirectiveFreshOpts(c)
+}
 
 // equivCheck runs the EQUIV obligations over all directive IsEquivalent implementations (only == nil) or over those
 // selected by only (other properties that rest on one directive's de-duplication).
@@ -157,7 +160,12 @@ func equivCheck(c *an.Check, only func(*ssa.Function) bool) {
 					}
 					if feedsComparison(p, eq, call) {
 						found = true
-						if proj := onlyProjections(p, eq, call); proj != "" {
+						proj := onlyProjections(p, eq, call)
+						if why, reviewed := equivProjectionReviewed[name+": "+m+"."+proj]; reviewed && proj != "" {
+							c.Note("reviewed projection: %s compares %s through %s — %s", name, m, proj, why)
+							proj = ""
+						}
+						if proj != "" {
 							c.Require(false, "EQUIV", fmt.Sprintf("%s compares the whole value of %s", name, m), eq, "", 1, "",
 								fmt.Sprintf("other.%s() takes part in the equivalence test only through its field %s: directives whose %s differ elsewhere are merged", m, proj, m))
 						} else {
@@ -352,6 +360,30 @@ func onlyProjections(p *an.Prog, fn *ssa.Function, call *ssa.Call) string {
 				if st, ok := t.X.Type().Underlying().(*types.Struct); ok {
 					f = st.Field(t.Field)
 				}
+			case *ssa.Call:
+				// a method of the getter's result other than the whole-value forms (String/Equal/…) is a projection too
+				if !t.Call.IsInvoke() && t.Call.StaticCallee() == nil {
+					return false
+				}
+				nm := ""
+				var recv ssa.Value
+				if t.Call.IsInvoke() {
+					nm, recv = t.Call.Method.Name(), t.Call.Value
+				} else if fo := an.CallObj(t.Common()); fo != nil && fo.Type().(*types.Signature).Recv() != nil && len(t.Call.Args) > 0 {
+					nm, recv = fo.Name(), t.Call.Args[0]
+				}
+				if recv == nil || ssa.Value(t) == ssa.Value(call) {
+					return false
+				}
+				switch nm {
+				case "String", "Equal", "Equals", "EqualVT", "Compare", "Bytes", "MarshalVT", "MarshalBinary", "Error", "":
+					return false
+				}
+				if recv == ssa.Value(call) {
+					name = nm + "()"
+					return true
+				}
+				return false
 			default:
 				return false
 			}
@@ -396,4 +428,41 @@ func onlyProjections(p *an.Prog, fn *ssa.Function, call *ssa.Call) string {
 		return ""
 	}
 	return proj
+}
+
+// dialDirectiveFreshOpts: every DialTptAddr directive owns its dialer options — the options object passed to
+// NewDialTptAddr is allocated in the function that builds the directive (the directive keeps the pointer and its
+// equivalence reads the address through it; a shared object makes all of them equivalent and rewrites them in place).
+func dialDirectiveFreshOpts(c *an.Check) {
+	p := c.P
+	n, bad := 0, ""
+	for _, fn := range p.AllRepoFuncs() {
+		if strings.Contains(fn.Pkg.Pkg.Path(), "/examples/") {
+			continue
+		}
+		for _, call := range an.Calls(fn, an.R("tptaddr", "", "NewDialTptAddr")) {
+			n++
+			arg := call.Call.Args[0]
+			fresh := false
+			if al, ok := arg.(*ssa.Alloc); ok && al.Parent() == fn {
+				fresh = true
+			}
+			if _, isParam := arg.(*ssa.Parameter); isParam {
+				fresh = true // forwarded by a constructor wrapper: the caller's site is checked
+			}
+			if cl, isCall := arg.(*ssa.Call); isCall && cl != nil {
+				fresh = true // produced by a call (clone / getter) in this function
+			}
+			if !fresh {
+				bad = fmt.Sprintf("%s at %s passes a dialer-options object that outlives the call (captured / shared) to NewDialTptAddr: all directives built there alias one object", an.FuncName(fn), p.Pos(call.Pos()))
+			}
+		}
+	}
+	c.Require(bad == "" && n >= 1, "LOOPALLOC", "every DialTptAddr directive is built with dialer options of its own", nil, "", n, "options allocated at the construction site", bad)
+}
+
+
+// equivProjectionReviewed: getters that are legitimately compared through one component only, with the reason.
+var equivProjectionReviewed = map[string]string{
+	"(*tptaddr.dialTptAddr).IsEquivalent: DialTptAddrDialerOpts.GetAddress()": "the address is the only part of the dialer options that selects what is dialed; the backoff settings tune retry timing of the same request",
 }
